@@ -48,20 +48,17 @@ def sim_replay(v, path):
 def snapshot_check(walk, routes, fp=False, transparent=False):
     def run(v, tier, seed):
         scen, impl, model, bad = snap_suite.run_snapshot(v, tier, seed, walk=walk)
-        snap_suite.report(v, bad, "snapshot", monitor=snap_suite.snapshot_timer_monitor)
-        n = len(bad)
-        # the remaining-time monitor also runs on every scenario on which the correspondence holds
-        badnames = {b[0] for b in bad}
-        nmon = 0
+        # the monitors on the implementation's own output (remaining timer time, in-flight copies, network settings) run on
+        # every scenario, whether the correspondence holds on it or not; a failing one is shrunk with respect to the monitor
+        monfail = []
         for nm, lines in scen:
-            if nm in badnames:
-                continue
-            nmon += 1
-            msg = snap_suite.snapshot_timer_monitor(lines, impl.get(nm, []))
+            msg = snap_suite.snapshot_monitor(lines, impl.get(nm, []))
             if msg:
-                v.violation(f"snapshot-timer-{nm}.txt", f"# property {v.pid}: {msg}\n# replay: /verif/check {v.pid} --replay <this file>\n"
-                            + "".join(l + "\n" for l in lines))
-                n += 1
+                monfail.append((nm, lines, msg))
+        monnames = {m[0] for m in monfail}
+        snap_suite.report(v, [b for b in bad if b[0] not in monnames], "snapshot", monitor=snap_suite.snapshot_monitor, monfail=monfail)
+        n = len(bad) + len([m for m in monfail if m[0] not in {b[0] for b in bad}])
+        nmon = len(scen)
         v.coverage.setdefault("snapshot", {})["remaining_time_monitor_scenarios"] = nmon
         if walk:
             n += snap_suite.judge_sim_path_covered(v, scen, impl, model, "snapshot", D1)
@@ -180,7 +177,8 @@ PROPS = {
     "C06": {"ready": True, "replay": sim_replay,
             "suites": [sim_suite.time_laws_probe, sim("sim_time", "C06", dict(p_random_delay=0.7, p_skew=0.6, p_clock=0.4, p_crash=0.1),
                            nontrivial=lambda st: st["received"] and st["timers_fired"],
-                           extra=lambda rng, tier: [(f"sk{i}", sim_suite.gen_skew_recover(rng)) for i in range(150 if tier == "quick" else 3000)])]},
+                           extra=lambda rng, tier: [(f"sk{i}", sim_suite.gen_skew_recover(rng)) for i in range(150 if tier == "quick" else 3000)]),
+                       py_suite.sim_twin]},
     "C08": {"ready": True, "replay": sim_replay,
             "suites": [sim("sim_crash", "C08", dict(p_crash=0.9, nodes=(2, 3), procs=(2, 4), ops=(10, 24)),
                            nontrivial=lambda st: st["crash"] and st["received"],
@@ -191,12 +189,12 @@ PROPS = {
             "suites": [sim("sim_logs", "C17", dict(p_fault=0.5, p_crash=0.4, p_link=0.3, nodes=(2, 3), procs=(2, 4)),
                            nontrivial=lambda st: st["received"] and (st["dropped"] or st["crash"]),
                            extra=lambda rng, tier: [(f"cb{i}", sim_suite.gen_crash_burst(rng)) for i in range(150 if tier == "quick" else 3000)])]},
-    "C18": {"ready": True, "replay": auto_replay, "suites": [lambda v, tier, seed: py_suite.run(v, tier, seed), py_suite.copy_isolation, py_suite.restore_probe],
+    "C18": {"ready": True, "replay": auto_replay, "suites": [lambda v, tier, seed: py_suite.run(v, tier, seed), py_suite.copy_isolation, py_suite.restore_probe, py_suite.sim_twin],
             "partial": "pickle, deepcopy, PyO3 conversions and JSON text are runtime behaviour covered by the correspondence runs only"},
     "C19": {"ready": True, "replay": mc_checks.replay, "suites": [pred_check],
             "partial": "state_depth_current_run is proved only in its sound half (finding D11); time_limit (wall clock) is outside the model"},
     "C02": {"ready": True, "partial": PARTIAL_D1, "replay": mc_checks.replay,
-            "suites": [mc("mc_paths", dict(collect_always=True, depth=(2, 4), caches=("full", "disabled")), refenum=True)]},
+            "suites": [mc("mc_paths", dict(collect_always=True, depth=(2, 4), caches=("full", "disabled"), staged=0.35, staged3=0.6), refenum=True)]},
     "C03": {"ready": True, "partial": PARTIAL_D1, "replay": mc_checks.replay,
             "suites": [mc("mc_exhaustive", dict(depth=(2, 4), staged=0.25, p_link=0.3, p_fault=0.45, p_send=0.5), refenum=True, cross=mc_checks.COMBOS, n_quick=250)]},
     "C07": {"ready": True, "partial": PARTIAL_D1, "replay": mc_checks.replay,
@@ -206,7 +204,8 @@ PROPS = {
                           nontrivial=lambda st: st["timers"]),
                        sim("sim_timers", "C07", dict(mc=dict(p_timer=0.65, p_send=0.15, p_cancel=0.2, p_once=0.45, same_timer_name=0.6, acts=(1, 4)),
                                                      p_crash=0.05, p_link=0.05, ops=(8, 20)),
-                           nontrivial=lambda st: st["timers_fired"])]},
+                           nontrivial=lambda st: st["timers_fired"]),
+                       py_suite.sim_twin]},
     "C09": {"ready": True, "replay": mc_checks.replay,
             "suites": [mc("mc_rerun", dict(two_runs=1.0, staged=0.3, p_link=0.4, p_fault=0.3, p_crash=0.2, nodes=(2, 3), p_send=0.5)), snapshot_check(walk=0, routes=False, transparent=True)]},
     "C10": {"ready": True, "replay": mc_checks.replay, "partial": PARTIAL_D1,
@@ -229,7 +228,7 @@ PROPS = {
                           nontrivial=lambda st: st["crash"] and st["multi_states"])]},
     "C16": {"ready": True, "replay": mc_checks.replay,
             "partial": "the union over start states is a theorem for the Disabled cache (runFromStates_disabled_concat) and for an exact shared cache with state-based predicates (runFromStates_ok_union); with path-dependent predicates and a shared cache the outcome depends on the hash order of equal-depth start states and is only observed",
-            "suites": [mc("mc_staged", dict(staged=1.0, depth=(2, 4)), nontrivial=lambda st: st["staged"] and st["multi_states"])]},
+            "suites": [mc("mc_staged", dict(staged=1.0, staged3=0.5, p_crash=0.3, depth=(2, 4)), nontrivial=lambda st: st["staged"] and st["multi_states"])]},
     "C20": {
         "ready": True,
         "suites": [lambda v, tier, seed: store_suite.run(v, tier, seed)],
